@@ -304,7 +304,18 @@ def gkf_text(net, values=None):
         o.append("<description>%s</description>\n" % xml_escape(net["description"], attr=False))
     if net.get("params"):
         o.append("<parameters %s />\n" % " ".join('%s="%s"' % (k, xml_escape(str(v))) for k, v in net["params"].items()))
-    o.append("<points-observations>\n")
+    imp = net.get("implicit")
+    if imp:
+        # implicit standard deviations; angular ones follow the unit rule of explicit ones (arc seconds for d-m-s values)
+        at = []
+        for t, name in (("direction", "direction-stdev"), ("angle", "angle-stdev"), ("z-angle", "zenith-angle-stdev"), ("azimuth", "azimuth-stdev")):
+            if imp.get(t) is not None:
+                at.append('%s="%s"' % (name, ang_sd(imp[t], net)))
+        if imp.get("dist") is not None:
+            at.append('distance-stdev="%s"' % " ".join(fnum(v) for v in imp["dist"]))
+        o.append("<points-observations %s>\n" % " ".join(at))
+    else:
+        o.append("<points-observations>\n")
     for p in net["points"]:
         at = ['id="%s"' % xml_escape(p["id"])]
         if p.get("give_xy"):
@@ -345,11 +356,11 @@ def gkf_text(net, values=None):
                     a.append('to="%s"' % xml_escape(ob["to"]))
                 if t in ANGULAR:
                     a.append('val="%s"' % gon_str(v, net))
-                    if cl.get("cov") is None and ob.get("sd") is not None:
+                    if cl.get("cov") is None and ob.get("sd") is not None and not ob.get("implicit_sd"):
                         a.append('stdev="%s"' % ang_sd(ob["sd"], net))
                 else:
                     a.append('val="%s"' % fnum(v))
-                    if cl.get("cov") is None and ob.get("sd") is not None:
+                    if cl.get("cov") is None and ob.get("sd") is not None and not ob.get("implicit_sd"):
                         a.append('stdev="%s"' % fnum(ob["sd"]))
                 for key in ("from_dh", "to_dh", "bs_dh", "fs_dh"):
                     if ob.get(key) is not None:
